@@ -46,6 +46,8 @@ type c17Program struct {
 	WrongASN  int        `json:"connections_with_unexpected_asn"` // the first k connections answer with an unexpected ASN
 	IBGP      bool       `json:"ibgp"`
 	Peer2Byte bool       `json:"peer_without_4byte_asn"`
+	// HoldS: hold time of the session parameters in seconds: -1 = not set (default 90), 0 = keepalives disabled
+	HoldS *int `json:"hold_time_s,omitempty"`
 }
 
 type c17Case struct {
@@ -208,6 +210,13 @@ func (h *c17H) peerFeed(c *vconn) {
 				h.problems = append(h.problems, "second OPEN on one connection")
 			}
 			c.state = 1
+			wantHold := 90
+			if h.prog.HoldS != nil {
+				wantHold = *h.prog.HoldS
+			}
+			if m.Open != nil && m.Open.HoldTime != wantHold {
+				h.problems = append(h.problems, fmt.Sprintf("OPEN carries hold time %d, the session was created with %d", m.Open.HoldTime, wantHold))
+			}
 			c.rbuf = append(c.rbuf, h.peerOpen(c)...)
 		case 4:
 			c.msgs = append(c.msgs, "KEEPALIVE")
@@ -284,8 +293,13 @@ func c17Body(h *c17H) func(s *verifrt.Sched) {
 			h.peerASN = 64512
 		}
 		sm := NewSessionManager(log.NewNopLogger())
-		sess, err := sm.NewSession(log.NewNopLogger(), bgp.SessionParameters{PeerAddress: "10.0.0.2", PeerPort: 179, MyASN: h.myASN, PeerASN: h.peerASN,
-			RouterID: net.IPv4(10, 0, 0, 1), CurrentNode: "n1", SessionName: "p"})
+		params := bgp.SessionParameters{PeerAddress: "10.0.0.2", PeerPort: 179, MyASN: h.myASN, PeerASN: h.peerASN,
+			RouterID: net.IPv4(10, 0, 0, 1), CurrentNode: "n1", SessionName: "p"}
+		if h.prog.HoldS != nil {
+			d := time.Duration(*h.prog.HoldS) * time.Second
+			params.HoldTime = &d
+		}
+		sess, err := sm.NewSession(log.NewNopLogger(), params)
 		if err != nil {
 			panic(err)
 		}
@@ -447,6 +461,8 @@ func c17Programs(thorough bool) []c17Program {
 		{Name: "set-ABC;refused-set(A,bad,B,C);drop1", Sets: [][]c17Adv{{a1, a2, a3}, {a1, bad, a2, a3}}, Drops: 1},
 		{Name: "set-A;set-B;refused-set(bad,A);drop1", Sets: [][]c17Adv{A, {a2, a3}, {bad, a1}}, Drops: 1},
 		{Name: "set-A;refused-set(C,bad);set-AB;no-drop", Sets: [][]c17Adv{{a1}, {a3, bad}, {a1, a2}}},
+		{Name: "hold-time-0;set-A;no-drop", Sets: [][]c17Adv{A}, HoldS: func() *int { z := 0; return &z }()},
+		{Name: "hold-time-3;set-A;drop1", Sets: [][]c17Adv{A}, Drops: 1, HoldS: func() *int { z := 3; return &z }()},
 		{Name: "set-aggregate+host-route-of-its-network-address;no-drop", Sets: [][]c17Adv{{b24, b32, a1}}},
 		{Name: "set-aggregate;set-host-route-of-its-network-address;drop1", Sets: [][]c17Adv{{b24, a1}, {b32, a1}}, Drops: 1},
 		{Name: "set-host-route;set-aggregate+host-route;set-aggregate;no-drop", Sets: [][]c17Adv{{b32}, {b24, b32}, {b24}}},
